@@ -1555,6 +1555,206 @@ theorem swRun_clean_at_release (cfg : Cfg) (h : Hooks υ) (cycles : List SwIn) (
     Clean (ledgerOf (swRun cfg h cycles u0).fin.w.tr) :=
   sw_clean_of_noStarted (swRun_spec cfg h cycles u0).2.1 (swRun_spec cfg h cycles u0).2.2.1
 
+/-! ## the reduce node -/
+
+theorem redStartList_inv (cfg : Cfg) (h : Hooks υ) (l : List Nat) (m : RedSt υ) (acc : List Nat) (hI : Inv cfg.n m.m) :
+    Inv cfg.n (redStartList cfg h l m acc).1.m := by
+  induction l generalizing m acc with
+  | nil => exact hI
+  | cons s rest ih =>
+    cases hes : m.m.ent s with
+    | some e =>
+      have heq : redStartList cfg h (s :: rest) m acc = redStartList cfg h rest m acc := by simp only [redStartList, hes]
+      rw [heq]; exact ih m acc hI
+    | none =>
+      have a1 := (createEntry_spec cfg h s (Int.ofNat (m.next + 1)) m.m hI).1
+      cases hr : (createEntry cfg h s (Int.ofNat (m.next + 1)) m.m).2 with
+      | none =>
+        have heq : redStartList cfg h (s :: rest) m acc =
+            redStartList cfg h rest { m := (createEntry cfg h s (Int.ofNat (m.next + 1)) m.m).1, next := m.next + 1 } (s :: acc) := by
+          simp only [redStartList, hes, hr]
+        rw [heq]; exact ih _ _ a1
+      | some x =>
+        have heq : redStartList cfg h (s :: rest) m acc =
+            ({ m := (createEntry cfg h s (Int.ofNat (m.next + 1)) m.m).1, next := m.next + 1 }, acc, some x) := by
+          simp only [redStartList, hes, hr]
+        rw [heq]; exact a1
+
+theorem redRebuild_inv (cfg : Cfg) (h : Hooks υ) (I : RedIn) (m : RedSt υ) (hI : Inv cfg.n m.m) :
+    Inv cfg.n (redRebuild cfg h I m).1.m := by
+  have a1 := redStartList_inv cfg h I.create m [] hI
+  unfold redRebuild
+  dsimp only
+  split
+  · exact destroyFold_inv cfg h _ _ a1
+  · exact destroyFold_inv cfg h _ _ a1
+
+theorem redCycle_inv (cfg : Cfg) (h : Hooks υ) (I : RedIn) (m : RedSt υ) (hI : Inv cfg.n m.m) :
+    Inv cfg.n (redCycle cfg h I m).1.m := by
+  have a1 := redRebuild_inv cfg h I m hI
+  unfold redCycle
+  dsimp only
+  split
+  · exact hI
+  · split
+    · exact a1
+    · exact evalSlots_inv cfg h I.ticked _ a1
+
+theorem redRunCycles_inv (cfg : Cfg) (h : Hooks υ) (l : List RedIn) (k : Nat) (m : RedSt υ) (hI : Inv cfg.n m.m) :
+    Inv cfg.n (redRunCycles cfg h l k m).1.m := by
+  induction l generalizing k m with
+  | nil => exact hI
+  | cons I rest ih =>
+    have hI' : Inv cfg.n ({ m with m := { m.m with w := emit (.cyc k) m.m.w } } : RedSt υ).m :=
+      hI.setW _ (emit_mark_Lw _ _ (Or.inr (Or.inr ⟨k, rfl⟩)))
+    have a1 := redCycle_inv cfg h I _ hI'
+    cases hr : (redCycle cfg h I { m with m := { m.m with w := emit (.cyc k) m.m.w } }).2 with
+    | none =>
+      have heq : redRunCycles cfg h (I :: rest) k m =
+          redRunCycles cfg h rest (k + 1) (redCycle cfg h I { m with m := { m.m with w := emit (.cyc k) m.m.w } }).1 := by
+        simp [redRunCycles, hr]
+      rw [heq]; exact ih _ _ a1
+    | some x =>
+      have heq : redRunCycles cfg h (I :: rest) k m =
+          ((redCycle cfg h I { m with m := { m.m with w := emit (.cyc k) m.m.w } }).1, some x) := by
+        simp [redRunCycles, hr]
+      rw [heq]; exact a1
+
+theorem redRun_spec (cfg : Cfg) (h : Hooks υ) (cycles : List RedIn) (u0 : υ) :
+    Inv cfg.n (redRun cfg h cycles u0).ret ∧ Inv cfg.n (redRun cfg h cycles u0).fin ∧ NoStarted (redRun cfg h cycles u0).fin ∧
+    (cfg.recorder = true → (cfg.cleanup = true ∨ (redRun cfg h cycles u0).err = none) → NoStarted (redRun cfg h cycles u0).ret) := by
+  have h0 := redRunCycles_inv cfg h cycles 0 { m := { w := { u := u0 } } } (Inv.init cfg.n u0)
+  have h1 := h0.setW (emit .stopping (redRunCycles cfg h cycles 0 { m := { w := { u := u0 } } }).1.m.w) (emit_mark_Lw _ _ (Or.inl rfl))
+  obtain ⟨s1, s2⟩ := mapStop_spec cfg h _ h1
+  have h2 := s1.setW (emit .returned (mapStop cfg h { (redRunCycles cfg h cycles 0 { m := { w := { u := u0 } } }).1.m with
+      w := emit .stopping (redRunCycles cfg h cycles 0 { m := { w := { u := u0 } } }).1.m.w }).1.w) (emit_mark_Lw _ _ (Or.inr (Or.inl rfl)))
+  have h3 := h0.setW (emit .returned (redRunCycles cfg h cycles 0 { m := { w := { u := u0 } } }).1.m.w) (emit_mark_Lw _ _ (Or.inr (Or.inl rfl)))
+  unfold redRun
+  dsimp only
+  split
+  · exact ⟨h2, (release_spec cfg h true _ h2).1, (release_spec cfg h true _ h2).2, fun hrec _ => s2 hrec⟩
+  · split
+    · exact ⟨h2, (release_spec cfg h true _ h2).1, (release_spec cfg h true _ h2).2, fun hrec _ => s2 hrec⟩
+    · rename_i hcl
+      refine ⟨h3, (release_spec cfg h false _ h3).1, (release_spec cfg h false _ h3).2, ?_⟩
+      intro _ hc
+      rcases hc with hc | hc
+      · exact absurd hc hcl
+      · cases hc
+
+/-- reduce_: no lifecycle violation in any run — every tree history (`List RedIn`: arbitrary created / retired / due
+    slot lists), every fault assignment, clean-up on or off -/
+theorem reduce_run_no_violation (cfg : Cfg) (h : Hooks υ) (cycles : List RedIn) (u0 : υ) :
+    (ledgerOf (redRun cfg h cycles u0).ret.w.tr).bad = false ∧ (ledgerOf (redRun cfg h cycles u0).fin.w.tr).bad = false :=
+  ⟨(redRun_spec cfg h cycles u0).1.ok, (redRun_spec cfg h cycles u0).2.1.ok⟩
+
+/-- reduce_ (`reduce_node_stop` with its first-exception recorder, as at HEAD): with clean-up on error, or without an
+    error, every combiner — retired during the run, rolled back, or live at the end — is stopped when `run()` returns -/
+theorem reduce_clean_at_return (cfg : Cfg) (hrec : cfg.recorder = true) (h : Hooks υ) (cycles : List RedIn) (u0 : υ)
+    (hc : cfg.cleanup = true ∨ (redRun cfg h cycles u0).err = none) :
+    Clean (ledgerOf (redRun cfg h cycles u0).ret.w.tr) :=
+  clean_of_noStarted (redRun_spec cfg h cycles u0).1 ((redRun_spec cfg h cycles u0).2.2.2 hrec hc)
+
+/-- reduce_: … and in every configuration by the release of the executor -/
+theorem reduce_clean_at_release (cfg : Cfg) (h : Hooks υ) (cycles : List RedIn) (u0 : υ) :
+    Clean (ledgerOf (redRun cfg h cycles u0).fin.w.tr) :=
+  clean_of_noStarted (redRun_spec cfg h cycles u0).2.1 (redRun_spec cfg h cycles u0).2.2.1
+
+/-! ### a stop error of a live combiner reaches the caller -/
+
+theorem nodeStop_err (h : Hooks υ) (c : Cid) (i : Nat) (w : World υ) : (nodeStop h c i w).err = (h.stop c i w.u).2 := by
+  unfold nodeStop
+  simp only [emit_u]
+  cases (h.stop c i w.u).2 <;> rfl
+
+theorem stopLoop_err_sticky' {σ : Type} (stop : Nat → σ → StepRes σ) (k : Nat) (s : σ) (vis : List Nat) (e : Option String)
+    (he : e ≠ none) : (stopLoop stop k s vis e).err ≠ none := by
+  cases e with
+  | none => exact absurd rfl he
+  | some m => rw [stopLoop_err_some]; simp
+
+/-- a node whose stop hook throws (whatever the state) makes the child graph's stop report an error -/
+theorem stopLoop_err_of_throw (h : Hooks υ) (c : Cid) (k : Nat) (w : World υ) (vis : List Nat) (e : Option String)
+    (j : Nat) (hj : j < k) (ht : ∀ u, (h.stop c j u).2 ≠ none) :
+    (stopLoop (nodeStop h c) k w vis e).err ≠ none := by
+  induction k generalizing w vis e with
+  | zero => omega
+  | succ k ih =>
+    rw [stopLoop_succ]
+    by_cases hjk : j = k
+    · subst hjk
+      apply stopLoop_err_sticky'
+      rw [nodeStop_err]
+      cases e with
+      | some m => simp [keepFirst]
+      | none => simp only [keepFirst]; exact ht _
+    · exact ih _ _ _ (by omega)
+
+theorem childStop_err_of_throw (h : Hooks υ) (n : Nat) (c : Cid) (w : World υ) (j : Nat) (hj : j < n)
+    (ht : ∀ u, (h.stop c j u).2 ≠ none) : (childStop h n c w).2 ≠ none := by
+  unfold childStop
+  exact stopLoop_err_of_throw h c n _ [] none j hj ht
+
+theorem removeEntry_err_of_throw (cfg : Cfg) (h : Hooks υ) (s : Nat) (m : MapSt υ) (e : Entry) (hes : m.ent s = some e)
+    (hst : e.started = true) (j : Nat) (hj : j < cfg.n) (ht : ∀ u, (h.stop e.cid j u).2 ≠ none) :
+    (removeEntry cfg h s m).2 ≠ none := by
+  have hr : (removeEntry cfg h s m).2 = (childStop h cfg.n e.cid m.w).2 := by simp [removeEntry, hes, hst]
+  rw [hr]
+  exact childStop_err_of_throw h cfg.n e.cid m.w j hj ht
+
+/-- the repaired slot scan reports an error as soon as ONE scanned slot holds a started child with a throwing stop hook -/
+theorem removeAllFrom_err_of_throw (cfg : Cfg) (hrec : cfg.recorder = true) (h : Hooks υ) (fuel s : Nat) (m : MapSt υ)
+    (t : Nat) (e : Entry) (h1 : s ≤ t) (h2 : t < s + fuel) (hes : m.ent t = some e) (hst : e.started = true)
+    (j : Nat) (hj : j < cfg.n) (ht : ∀ u, (h.stop e.cid j u).2 ≠ none) :
+    (removeAllFrom cfg h fuel s m none).2 ≠ none := by
+  induction fuel generalizing s m with
+  | zero => omega
+  | succ fuel ih =>
+    obtain ⟨f1, f2⟩ := removeAll_first_error cfg hrec h fuel s m
+    cases hr : (removeEntry cfg h s m).2 with
+    | some x => rw [f2 x hr]; simp
+    | none =>
+      rw [f1 hr]
+      have hne : t ≠ s := by
+        intro heq; subst heq
+        exact removeEntry_err_of_throw cfg h t m e hes hst j hj ht hr
+      exact ih (s + 1) _ (by omega) (by omega) (by rw [removeEntry_other cfg h s m t hne]; exact hes)
+
+/-- **A combiner stop error reaches the caller** (the clause seed s65 falsifies).  When nothing failed before the
+    parent's stop, `run()` reports exactly the first error of the scan over the live combiners
+    (`removeAll_first_error`: the first slot, in ascending position, whose stop throws) — and that is an error whenever
+    some live combiner has a node whose stop hook throws: `run()` cannot return normally. -/
+theorem reduce_stop_error_reaches_caller (cfg : Cfg) (hrec : cfg.recorder = true) (h : Hooks υ) (cycles : List RedIn) (u0 : υ)
+    (hno : (redRunCycles cfg h cycles 0 { m := { w := { u := u0 } } }).2 = none) :
+    (redRun cfg h cycles u0).err =
+      (mapStop cfg h { (redRunCycles cfg h cycles 0 { m := { w := { u := u0 } } }).1.m with
+                        w := emit .stopping (redRunCycles cfg h cycles 0 { m := { w := { u := u0 } } }).1.m.w }).2 ∧
+    (∀ s e j, (redRunCycles cfg h cycles 0 { m := { w := { u := u0 } } }).1.m.ent s = some e → e.started = true →
+        j < cfg.n → (∀ u, (h.stop e.cid j u).2 ≠ none) → (redRun cfg h cycles u0).err ≠ none) := by
+  have herr : (redRun cfg h cycles u0).err =
+      (mapStop cfg h { (redRunCycles cfg h cycles 0 { m := { w := { u := u0 } } }).1.m with
+                        w := emit .stopping (redRunCycles cfg h cycles 0 { m := { w := { u := u0 } } }).1.m.w }).2 := by
+    unfold redRun
+    dsimp only
+    split
+    · rfl
+    · rename_i y hy; rw [hy] at hno; cases hno
+  refine ⟨herr, ?_⟩
+  intro s e j hes hst hj ht
+  rw [herr]
+  have h0 := redRunCycles_inv cfg h cycles 0 { m := { w := { u := u0 } } } (Inv.init cfg.n u0)
+  have hcap : s < (redRunCycles cfg h cycles 0 { m := { w := { u := u0 } } }).1.m.cap := (h0.st s e hes hst).2.2
+  have hscan := removeAllFrom_err_of_throw cfg hrec h
+    (redRunCycles cfg h cycles 0 { m := { w := { u := u0 } } }).1.m.cap 0
+    { (redRunCycles cfg h cycles 0 { m := { w := { u := u0 } } }).1.m with
+      w := emit .stopping (redRunCycles cfg h cycles 0 { m := { w := { u := u0 } } }).1.m.w }
+    s e (Nat.zero_le _) (by omega) hes hst j hj ht
+  unfold mapStop removeAll
+  dsimp only
+  split
+  · rename_i hn; exact absurd hn hscan
+  · simp
+
 /-! ## non-vacuity: faults do fire in the model, and what the theorems say about those runs -/
 
 /-- a fault plan: start-hook call `fs` (1-based, global count) throws; the stop of every node of key `fx` throws -/
